@@ -47,6 +47,7 @@ structure Tables where
   descRaw : Bool
   toolOmitsDirectives : Bool
   assureOnce : Bool
+  subOrderByMap : Bool
   dirRequiredUnchecked : Bool
   dirRefTypeFirst : Bool
   extendSchemaNeedsSchema : Bool
